@@ -88,7 +88,7 @@ theorem C03_gc_only_removes (s s' : Storage) (h : gc s = (s', .ok ())) (n : Node
 
 example : ∃ s s' n r, gc s = (s', .ok ()) ∧ alookup s'.derived n = some r ∧
     s'.derived.length < s.derived.length :=
-  ⟨after 8 1 progLru histGc, (gc (after 8 1 progLru histGc)).1, ⟨1, 1⟩, ⟨7, 1, 1, [⟨.source (.src 1), 1⟩]⟩,
+  ⟨after 8 1 progLru histGc, (gc (after 8 1 progLru histGc)).1, ⟨1, 1⟩, ⟨7, 3, 3, [⟨.source (.src 1), 3⟩]⟩,
     Prod.ext rfl (by decide +kernel), by decide +kernel, by decide +kernel⟩
 
 /-- A collection that returns touches nothing but `derived`, `top_level_calls` and the LRU. -/
@@ -109,7 +109,7 @@ theorem C03_gc_keeps_reachable (s s' : Storage) (h : gc s = (s', .ok ())) (root 
 example : ∃ s s' root n, gc s = (s', .ok ()) ∧ root ∈ gcRoots s ∧ Reach s.derived root n ∧ n ≠ root :=
   ⟨after 8 2 progLru histGc, (gc (after 8 2 progLru histGc)).1, ⟨0, 0⟩, ⟨1, 0⟩,
     Prod.ext rfl (by decide +kernel), by decide +kernel,
-    Reach.step (r := ⟨1, 1, 1, [⟨.derived ⟨1, 0⟩, 1⟩]⟩) (Reach.refl _) (by decide +kernel) (by decide +kernel),
+    Reach.step (r := ⟨1, 2, 3, [⟨.derived ⟨1, 0⟩, 3⟩]⟩) (Reach.refl _) (by decide +kernel) (by decide +kernel),
     by decide⟩
 
 /-- The collector's roots: the LRU after the pending top-level calls have been folded in, then the
